@@ -61,6 +61,32 @@ fn root_ok(k: u32, x: &BigDecimal, r: &BigDecimal, p: u64, mode: RoundingMode, r
 }
 fn mirror(m: RoundingMode) -> RoundingMode { match m { RoundingMode::Floor => RoundingMode::Ceiling, RoundingMode::Ceiling => RoundingMode::Floor, o => o } }
 
+/// reference recogniser of the numeral grammar in the property statement; Some(scale) when accepted
+fn grammar_accepts(b: &[u8]) -> Option<i128> {
+    let n = b.len();
+    let epos = b.iter().position(|&c| c == b'e' || c == b'E').unwrap_or(n);
+    let mut exp: i128 = 0;
+    if epos < n {
+        let e = &b[epos + 1..];
+        let (neg, d) = match e.first() { Some(b'+') => (false, &e[1..]), Some(b'-') => (true, &e[1..]), _ => (false, e) };
+        if d.is_empty() || !d.iter().all(|c| c.is_ascii_digit()) { return None; }
+        for c in d { exp = exp.checked_mul(10)?.checked_add((c - b'0') as i128)?; }
+        if neg { exp = -exp; }
+    }
+    let base = &b[..epos];
+    let body = match base.first() { Some(b'+') | Some(b'-') => &base[1..], _ => base };
+    let mut seen_dot = false; let mut first = true; let mut any = false; let mut frac: i128 = 0;
+    for &c in body {
+        if c == b'.' { if seen_dot { return None; } seen_dot = true; }
+        else if c.is_ascii_digit() || (c == b'_' && !first) { if seen_dot && c != b'_' { frac += 1; } first = false; any = true; }
+        else { return None; }
+    }
+    if !any { return None; }
+    let scale = frac - exp;
+    if scale < i64::MIN as i128 || scale > i64::MAX as i128 { return None; }
+    Some(scale)
+}
+
 fn main() {
     let args: Vec<String> = std::env::args().collect();
     let sc = args.get(1).map(|s| s.as_str()).unwrap_or("");
@@ -150,6 +176,45 @@ fn main() {
             let b = -x.inverse_with_context(&ctx_of(&args[3], "Ceiling"));
             println!("inverse(-x)|Floor = {}   -inverse(x)|Ceiling = {}", a, b);
             a == b
+        }
+        // C05: exhaustive native sweep of all strings up to <maxlen> over the alphabet {0,1,7,+,-,.,e,E,_,x,space}
+        // against a reference recogniser of the numeral grammar (used to turn a failed Kani acceptance check into a
+        // concrete failing input); prints the mismatching strings
+        "parse_sweep" => {
+            let maxlen: usize = args[2].parse().unwrap();
+            let alpha = [b'0', b'1', b'7', b'+', b'-', b'.', b'e', b'E', b'_', b'x', b' '];
+            let mut bad: Vec<String> = vec![];
+            let mut count = 0u64;
+            let mut idx = vec![0usize; maxlen];
+            for len in 0..=maxlen {
+                for v in idx.iter_mut() { *v = 0; }
+                loop {
+                    let s: String = idx[..len].iter().map(|&i| alpha[i] as char).collect();
+                    count += 1;
+                    let got = std::panic::catch_unwind(|| BigDecimal::from_str(&s));
+                    let want = grammar_accepts(s.as_bytes());
+                    match got {
+                        Ok(r) => {
+                            if r.is_ok() != want.is_some() { bad.push(format!("{:?} accepted={} grammar={}", s, r.is_ok(), want.is_some())); }
+                            else if let (Ok(v), Some(scale)) = (r, want) {
+                                if v.as_bigint_and_exponent().1 as i128 != scale { bad.push(format!("{:?} scale {} expected {}", s, v.as_bigint_and_exponent().1, scale)); }
+                            }
+                        }
+                        Err(_) => bad.push(format!("{:?} PANIC", s)),
+                    }
+                    // next
+                    let mut k = 0;
+                    while k < len { idx[k] += 1; if idx[k] < alpha.len() { break; } idx[k] = 0; k += 1; }
+                    if k == len { break; }
+                }
+            }
+            println!("{} strings, {} mismatches: {:?}", count, bad.len(), &bad[..bad.len().min(12)]);
+            if args.len() > 3 {
+                // listed (known) mismatching strings are tolerated: report only others
+                let known: Vec<&str> = args[3].split('|').collect();
+                bad.retain(|b| !known.iter().any(|k| b.starts_with(&format!("{:?}", k))));
+            }
+            bad.is_empty()
         }
         _ => { eprintln!("unknown scenario"); std::process::exit(2) }
     };
